@@ -383,7 +383,15 @@ impl Gen {
             7 => {
                 let tok = if self.rng.chance(2, 3) { Tok::B } else { Tok::St };
                 let (u, b) = self.holder(sim, tok).or_else(|| if tw { Some((self.user(sim), 10)) } else { None })?;
-                let to = if self.rng.chance(1, 12) { u.clone() } else { self.user(sim) };
+                // mostly other users; sometimes oneself or one of the contract addresses
+                let to = match self.rng.below(24) {
+                    0 | 1 => u.clone(),
+                    2 => REWARD.to_string(),
+                    3 => DISPATCHER.to_string(),
+                    4 => HUB.to_string(),
+                    5 => if tok == Tok::B { BSEI.to_string() } else { STSEI.to_string() },
+                    _ => self.user(sim),
+                };
                 let a = if self.rng.chance(1, 15) { b + 1 } else { self.amount(sim, b) };
                 Some(Op::Transfer { tok, from: u, to, amount: a.into() })
             }
@@ -400,9 +408,11 @@ impl Gen {
                 if spender == owner && self.rng.chance(9, 10) {
                     spender = INTRUDER.to_string();
                 }
-                let a = self.amount(sim, CAP / 8);
-                let exp = match self.rng.below(8) {
-                    0 => Exp::Keep,
+                // mostly within the owner's balance (so that an allowance can be used up), sometimes far above
+                let ob = sim.obs.t(tok).and_then(|t| t.bal.get(&owner).copied()).unwrap_or(0);
+                let a = if ob > 0 && self.rng.chance(2, 3) { self.amount(sim, ob) } else { self.amount(sim, CAP / 8) };
+                let exp = match self.rng.below(9) {
+                    0 | 8 => Exp::Keep,
                     1 => Exp::AtHeight(sim.w.height + self.rng.range(0, 6)),
                     2 => Exp::AtTime(sim.w.time + self.rng.range(0, sim.cfg.epoch_period * 3 + 3)),
                     3 => Exp::AtHeight(sim.w.height.saturating_sub(1)),
@@ -423,9 +433,10 @@ impl Gen {
                 let b = sim.obs.t(tok).and_then(|t| t.bal.get(&owner).copied()).unwrap_or(0);
                 let granted = sim.obs.t(tok).and_then(|t| t.allow.get(&(owner.clone(), spender.clone())).map(|a| a.allowance.u128())).unwrap_or(0);
                 let lim = b.min(granted);
-                let a = match self.rng.below(6) {
+                let a = match self.rng.below(8) {
                     0 => granted + 1,
                     1 => b + 1,
+                    2 | 3 if granted > 0 => granted.min(b.max(1)), // use the allowance up exactly
                     _ => self.amount(sim, lim.max(1)),
                 };
                 if cat == 11 {
